@@ -126,11 +126,57 @@ fn candidate(i: u32) -> String {
     s
 }
 
+/// FxHash (rustc-hash 1.x, 64-bit) of a `str` key as `Hash for str` feeds it: the bytes in
+/// 8/4/2/1-byte little-endian reads, then 0xFF. 64 bits cannot be birthday-searched, but the
+/// function is weak: numbered names whose digits sit on byte 7 and 8 collide within a series.
+fn fxhash64_str(b: &[u8]) -> u64 {
+    const K: u64 = 0x517c_c1b7_2722_0a95;
+    let add = |h: u64, w: u64| (h.rotate_left(5) ^ w).wrapping_mul(K);
+    let mut h = 0u64;
+    let mut r = b;
+    while r.len() >= 8 {
+        h = add(h, u64::from_le_bytes([r[0], r[1], r[2], r[3], r[4], r[5], r[6], r[7]]));
+        r = &r[8..];
+    }
+    if r.len() >= 4 {
+        h = add(h, u32::from_le_bytes([r[0], r[1], r[2], r[3]]) as u64);
+        r = &r[4..];
+    }
+    if r.len() >= 2 {
+        h = add(h, u16::from_le_bytes([r[0], r[1]]) as u64);
+        r = &r[2..];
+    }
+    if !r.is_empty() {
+        h = add(h, r[0] as u64);
+    }
+    add(h, 0xFF)
+}
+
+fn fx_pairs() -> Vec<(String, String, String)> {
+    let mut out = Vec::new();
+    for prefix in ["uWeapon", "uHead_F", "MID_Bod", "AID_Uni"] {
+        for suffix in ["", "_0", "_body"] {
+            let mut seen: HashMap<u64, String> = HashMap::new();
+            let mut found = 0;
+            for n in 0..100 {
+                let s = format!("{}{:02}{}", prefix, n, suffix);
+                if let Some(t) = seen.insert(fxhash64_str(s.as_bytes()), s.clone()) {
+                    if found < 1 {
+                        out.push(("fxhash64".to_string(), t, s));
+                    }
+                    found += 1;
+                }
+            }
+        }
+    }
+    out
+}
+
 /// (hash name, a, b) with a != b and hash(a) == hash(b); up to two pairs per hash function.
 pub fn pairs() -> &'static Vec<(String, String, String)> {
     static P: OnceLock<Vec<(String, String, String)>> = OnceLock::new();
     P.get_or_init(|| {
-        let mut out = Vec::new();
+        let mut out = fx_pairs();
         for (name, f) in HASHES {
             let mut seen: HashMap<u32, u32> = HashMap::new();
             let mut found = 0;
